@@ -156,7 +156,7 @@ func cmdCheck(args []string) int {
 			}
 			ok, names, secs, out := g.CheckLean(sf, *verif, 15*time.Minute)
 			for _, n := range names {
-				o := &Obligation{Fn: u, Name: "lemma:" + n + "/lean", Kind: "lean", Guard: True, Goal: True, Text: "Lean 4 + Mathlib accepts the generated theorem " + n + " (/verif/lemmas/Generated.lean)", Pos: "lemmas/proofs/" + n + ".lean", Seconds: secs / float64(len(names))}
+				o := &Obligation{Fn: u, Name: "lemma:" + n + "/lean", Kind: "lean", Guard: True, Goal: True, Text: "Lean 4 + Mathlib accepts the generated theorem " + n + " (/verif/lemmas/Generated_<pkg>.lean)", Pos: "lemmas/proofs/" + n + ".lean", Seconds: secs / float64(len(names))}
 				if ok {
 					o.Result, o.Solver = "unsat", "lean"
 				} else {
